@@ -22,7 +22,7 @@ MANIFEST_ENTRY = dict(
     category='other',
     engine='bounded',
     technique='sidecar contracts on the real functions: wiring / closed-form obligations from the AST discharged by z3 and the ring normaliser where the functions are within reach; bounded run-time contracts with independent oracles for the rest (never counted as proved)',
-    text='Discharged from the real source on every run (all values, stated small shapes): PDFs.c:biv_lognormal; Cache1D.integrate, integrate_point_pos; Cache2D.integrate: interior double trapezoid + the four edge marginals + three corner integrals with the documented integrand/range of every quad/dblquad call (asymmetric and symmetric shortcut; the missing both-deleterious corner is a known finding); Vourlaki_mixture as an exact linear combination of cached quantities; mixture, mixture_symmetric_point_pos, mixture_point_pos as two-term combinations with every argument bound by name to the cache method it reaches. Bounded run-time contracts (never counted as proved): DFE quadrature identities against mpmath, theta-linearity, mixtures, cache equality across worker counts and split jobs, fault reporting, compiled pdfs.',
+    text='Discharged from the real source on every run (all values, stated small shapes): PDFs.c:biv_lognormal and biv_ind_gamma; Cache1D.integrate, integrate_point_pos; Cache2D.integrate: interior double trapezoid + the four edge marginals + three corner integrals with the documented integrand/range of every quad/dblquad call (asymmetric and symmetric shortcut; the missing both-deleterious corner is a known finding); Vourlaki_mixture as an exact linear combination of cached quantities; mixture, mixture_symmetric_point_pos, mixture_point_pos as two-term combinations with every argument bound by name to the cache method it reaches. Bounded run-time contracts (never counted as proved): DFE quadrature identities against mpmath, theta-linearity, mixtures, cache equality across worker counts and split jobs, fault reporting, compiled pdfs.',
     note='bounded: see coverage.bounded.drivers[].bound in the evidence file for the exact domain of every driver',
 )
 
